@@ -3,9 +3,9 @@
 EXTENDS MTestSolver
 Unset == -16     \* @MinimalTimeStep not given: the code's -1, one time unit = 16 ticks here
 \* fixed halving (default) on two intervals
-StaticConfs == {[times |-> <<0, 64, 192>>, maxsub |-> m, dyn |-> FALSE, mindt |-> Unset] : m \in {1, 2, 4}}
+StaticConfs == {[times |-> <<0, 64, 192>>, maxsub |-> m, dyn |-> FALSE, mindt |-> Unset, maxdt |-> 0] : m \in {1, 2, 4}}
 \* dynamic time step scaling, with and without @MinimalTimeStep
-DynamicConfs == {[times |-> <<0, 32, 96>>, maxsub |-> 3, dyn |-> TRUE, mindt |-> md] : md \in {Unset, 4}}
+DynamicConfs == {[times |-> <<0, 32, 96>>, maxsub |-> 3, dyn |-> TRUE, mindt |-> md, maxdt |-> mx] : md \in {Unset, 4}, mx \in {0, 12}}
 AllConfs == StaticConfs \cup DynamicConfs
 MCFactors == {<<1, 4>>, <<3, 8>>, <<1, 8>>}
 =============================================================================
